@@ -149,7 +149,13 @@ loop:
 			return err
 		}
 		err := ctx.RenderChildren(w)
-		if werr := decorator.after(w, i, l); werr != nil {
+		// an iteration ended by break is the last one: the decorator closes what it opened
+		// (a tablerow its row)
+		last := l
+		if err != nil && err.Cause() == errLoopBreak {
+			last = i + 1
+		}
+		if werr := decorator.after(w, i, last); werr != nil {
 			return werr
 		}
 		switch {
